@@ -106,6 +106,26 @@ theorem send_seq_invariant (ops : List Op) (c : Chain) : SeqInv ((run H Hc World
         · exact hw c
         · simp only [setChain_same]; exact hw c
       | setTime c now => simp only [step, Op.chain, setChain_same]; exact hw c
+      | createClientMsg c auth q' ct h t pd v cs =>
+        simp only [step, Op.chain, setChain_same]
+        have := createClientMsg_admin (w c) auth q' ct h t pd v cs (w q').core.ps.snapshot
+        intro pr; have hh := hw c pr; unfold sentSeqs at hh ⊢; rw [this.ps, this.sent]; exact hh
+      | upgradeClientMsg c auth q' ct h t pd v cs =>
+        simp only [step, Op.chain, setChain_same]
+        have := upgradeClientMsg_admin (w c) auth q' ct h t pd v cs (w q').core.ps.snapshot
+        intro pr; have hh := hw c pr; unfold sentSeqs at hh ⊢; rw [this.ps, this.sent]; exact hh
+      | registerRelayerMsg c auth q' rs =>
+        simp only [step, Op.chain, setChain_same]
+        have := registerRelayerMsg_admin (w c) auth q' rs
+        intro pr; have hh := hw c pr; unfold sentSeqs at hh ⊢; rw [this.ps, this.sent]; exact hh
+      | setRulesMsg c auth rules =>
+        simp only [step, Op.chain, setChain_same]
+        have := setRulesMsg_admin (w c) auth rules
+        intro pr; have hh := hw c pr; unfold sentSeqs at hh ⊢; rw [this.ps, this.sent]; exact hh
+      | updateClientMsg c sg q' h t ok =>
+        simp only [step, Op.chain, setChain_same]
+        have := updateClientMsg_admin (w c) sg q' h t ok (w q').core.ps.snapshot
+        intro pr; have hh := hw c pr; unfold sentSeqs at hh ⊢; rw [this.ps, this.sent]; exact hh
       | nftIssue c a cls mr => simp only [step, Op.chain, setChain_same, nftIssueMsg_core]; exact hw c
       | nftMint c a cls id u rc => simp only [step, Op.chain, setChain_same, nftMintMsg_core]; exact hw c
       | nftSend c a cls id rc => simp only [step, Op.chain, setChain_same, nftSendMsg_core]; exact hw c
